@@ -1107,10 +1107,13 @@ func (l *Local) canDispose() bool {
 	if l.eni.Trunk {
 		return false
 	}
+	// jobs moved to danging are served by the ips just assigned, their workers have not picked them yet
 	return len(l.ipv4.InUse()) == 0 &&
 		len(l.ipv6.InUse()) == 0 &&
 		l.allocatingV4.Len() == 0 &&
-		l.allocatingV6.Len() == 0
+		l.allocatingV6.Len() == 0 &&
+		l.dangingV4.Len() == 0 &&
+		l.dangingV6.Len() == 0
 }
 
 // syncIPLocked will mark ip as invalid , if not found in remote
